@@ -14,6 +14,7 @@ import (
 	"sync"
 	"time"
 
+	"github.com/gorilla/securecookie"
 	"github.com/gorilla/sessions"
 )
 
@@ -62,6 +63,11 @@ const (
 
 	// minEncryptionKeyLength defines the minimum length for the encryption key
 	minEncryptionKeyLength = 32
+
+	// maxEncodedCookieLength is the longest cookie value the store may produce.
+	// Browsers limit a whole cookie (name, value and attributes) to 4096 bytes;
+	// the longest name and attribute string used here take under 150 bytes.
+	maxEncodedCookieLength = 3900
 )
 
 // compressToken compresses the input string using gzip and then encodes the result using standard base64 encoding.
@@ -148,8 +154,15 @@ func NewSessionManager(encryptionKey string, forceHTTPS bool, logger *Logger) (*
 	// nor e-mail nor login-flow values to anyone who does not hold the key.
 	blockKey := sha256.Sum256([]byte("traefikoidc session cookie encryption|" + encryptionKey))
 
+	store := sessions.NewCookieStore([]byte(encryptionKey), blockKey[:])
+	for _, codec := range store.Codecs {
+		if sc, ok := codec.(*securecookie.SecureCookie); ok {
+			sc.MaxLength(maxEncodedCookieLength)
+		}
+	}
+
 	sm := &SessionManager{
-		store:      sessions.NewCookieStore([]byte(encryptionKey), blockKey[:]),
+		store:      store,
 		forceHTTPS: forceHTTPS,
 		logger:     logger,
 	}
